@@ -273,7 +273,8 @@ def _try_subclass(schemas, name, versioned):
             cls = schemas[(name, ref.version)] if versioned else schemas[name]
         elif route == "fields_origin":  # the class a field was defined in, reached through the handle's Fields
             h = schemas.get(name, ref.version) if versioned else schemas[name]
-            fields = list(h.Fields.keys())
+            fields = sorted(schemas.get(name, ref.version).__fields__.keys())  # (field names from the pydantic model)
+            fields = [f for f in fields if not f.startswith("_") and f in dir(h.Fields)] or fields
             if not fields:
                 return versioned
             cls = h.Fields[fields[0]].origin
